@@ -1,6 +1,7 @@
 import QuillModel.Pattern.Compile
 import QuillModel.Pattern.Lines
 import QuillModel.Pattern.Meta
+import QuillModel.Pattern.Fuel
 /-!
 # C12 — the line handed to a sink equals the pattern with every attribute substituted
 
@@ -165,6 +166,19 @@ theorem C12_rejects_unknown_with_spec (p : List Item) (name spec u : Str) (hwf :
   have hparts : (fieldParts (name ++ ':' :: spec)).1 = name := by
     simp only [fieldParts, splitAtChar_append _ _ hn2]
   simp only [generate, findField_append_field _ hg.2, splitAtChar_append _ _ hbody, hparts, hunk]
+
+/-- for EVERY pattern text: the constructor model fails only with the two errors of the C++ constructor (or reports
+    the undefined-behaviour case of more than sixteen fields); its loop fuel is never exhausted, because every
+    iteration removes one `)` from the pattern -/
+theorem C12_constructor_error_kinds (pattern : Str) (e : CtorErr) (h : construct pattern = .error e) :
+    e = .unterminated ∨ (∃ n, e = .unknownAttr n) ∨ e = .tooManyFields :=
+  construct_error_kinds pattern e h
+
+/-- specs outside the subset that fmt rejects for string arguments make every statement throw -/
+example : formatPattern "%(message:05)".toList (fun a => a.name) = .formatError := by decide
+example : formatPattern "%(message:d)".toList (fun a => a.name) = .formatError := by decide
+example : formatPattern "%(message:2147483648)".toList (fun a => a.name) = .formatError := by decide
+example : formatPattern "%(message:2147483647.0)".toList (fun _ => []) ≠ .formatError := by decide
 
 /-- the errors of the constructor model are exactly these kinds on the examples of the malformed stream;
     which error wins is decided by position: the first offending field -/
